@@ -386,6 +386,49 @@ func selfTest(args []string) int {
 		}
 		fmt.Println()
 	}
+	// solo mode (SEQ runs): a lock held by the only goroutine is reported, a
+	// lock held by a goroutine the code started is waited for
+	solo := func(name string, f func() string, want string) {
+		got := f()
+		status := "ok"
+		if got != want {
+			status = "FAILED"
+			failed++
+		}
+		fmt.Printf("selftest %-28s %s observation=%q want=%q\n", name, status, got, want)
+	}
+	solo("solo:self-deadlock", func() (obs string) {
+		defer vrt.Solo(vrt.Solo(true))
+		defer func() {
+			if d, ok := recover().(vrt.SoloDeadlock); ok {
+				obs = "deadlock:" + d.Op
+			}
+		}()
+		var m vrt.Mutex
+		m.Lock()
+		m.Lock()
+		return "locked twice"
+	}, "deadlock:Mutex.Lock")
+	solo("solo:held-by-other-goroutine", func() (obs string) {
+		defer vrt.Solo(vrt.Solo(true))
+		defer func() {
+			if r := recover(); r != nil {
+				obs = fmt.Sprint("panic:", r)
+			}
+		}()
+		var m vrt.RWMutex
+		held := make(chan bool)
+		vrt.Go("holder", func() {
+			m.Lock()
+			held <- true
+			time.Sleep(20 * time.Millisecond)
+			m.Unlock()
+		})
+		<-held
+		m.RLock()
+		m.RUnlock()
+		return "acquired"
+	}, "acquired")
 	if failed > 0 {
 		fmt.Printf("HARNESS-ERROR selftest: %d scenario(s) failed\n", failed)
 		return 3
